@@ -6,7 +6,7 @@
 From Coq Require Import ZArith List Lia Bool.
 From EV Require Import Res Arr Join JoinSpec JoinBase JoinIface JoinDriver JoinMain MapStream MapStreamSpec MapStreamBase
   MapIndexedDriver Merge MergeSpec MergeBase MergeOrdered MergeMaps MergeTop MergeRows MergeRefuted
-  JoinAll MergeAll MergeCopy MergeShape.
+  JoinAll MergeAll MergeCopy MergeShape KeyView MergeView.
 Import ListNotations.
 Open Scope Z_scope.
 
@@ -494,3 +494,102 @@ Theorem long_run_raises_refuted :               (* F-C02g: ~LongRun is a necessa
   merge join_pairs g_args = Raise E_ValueError.
 Proof. exact long_run_raises. Qed.
 Print Assumptions long_run_raises_refuted.
+
+(* ==== strengthening SC02: key columns of any dtype, different on the two sides ==========================
+   merge compares keys only through the numba kernels / pandas, on the two columns' own dtypes; the model joins on
+   `list Z`.  A key column is sent to the model in an exact, strictly monotone integer encoding of its values
+   (harness/props/C02.py _key_enc: integers as themselves; floats, and integers compared with floats, times 2^60;
+   byte strings big-endian in 8 bytes).
+   * The relational join — join_pairs / merge_pairs / merge_spec, all four modes, compound keys — does not change when
+     every key value is sent through a map that is injective on the values present: the specification evaluated on
+     the encoded keys IS the specification on the keys.
+   * The streamed path of the repaired merge run on keys seen through a strictly monotone map (a lossless widening
+     conversion) returns the destination of the relational join of the keys themselves, under the hypotheses of
+     ordered_merge_correct_all stated on the keys themselves.
+   * A conversion that is not injective on the keys present changes the join: the class of defect "harmonise the two
+     key columns with a narrowing astype" (seeded change C02-r2-1), the defect of pandas 3.0 repaired by
+     work/SC02/fix-F-C02h.diff, and the known finding F-C02i (mixed int64/uint64/float keys are compared as binary64;
+     on the pandas path that is a cast of both columns: Model/KeyView.v key_view 1, wire flag kvs of Extract/E_C02.v),
+     which needs a key of at least 2^53. *)
+Theorem join_pairs_key_embedding :
+  forall f how L R, inj_rows f L R -> join_pairs how (map (map f) L) (map (map f) R) = join_pairs how L R.
+Proof. exact MergeView.join_pairs_key_embedding. Qed.
+Print Assumptions join_pairs_key_embedding.
+
+Theorem merge_spec_key_embedding :
+  forall f how lkeys rkeys lcols rcols lsuf rsuf,
+  cols_len (first_len lkeys) lkeys -> cols_len (first_len rkeys) rkeys ->
+  inj_on f (concat lkeys ++ concat rkeys) ->
+  merge_spec how (map (map f) lkeys) (map (map f) rkeys) lcols rcols lsuf rsuf
+  = merge_spec how lkeys rkeys lcols rcols lsuf rsuf.
+Proof. exact MergeView.merge_spec_key_embedding. Qed.
+Print Assumptions merge_spec_key_embedding.
+
+Theorem join_maps_key_embedding :
+  forall f isl inv L R, inj_on f (L ++ R) -> join_spec isl inv (map f L) (map f R) = join_spec isl inv L R.
+Proof. exact MergeView.join_spec_map. Qed.
+Print Assumptions join_maps_key_embedding.
+
+Theorem ordered_merge_key_embedding :
+  forall f how lu ru lk rk lcols rcols lsuf rsuf cs mcs vf ccs,
+  mono_on f (lk ++ rk) ->
+  how = 0 \/ how = 1 \/ how = 2 -> 1 <= cs -> 1 <= mcs -> 0 <= vf -> 1 <= ccs ->
+  hints_truthful lu ru lk rk ->
+  frame_ok (len lk) lcols (mcs * vf) -> frame_ok (len rk) rcols (mcs * vf) ->
+  NoDup (frame_names (ordered_dest how lu ru lk rk lcols rcols lsuf rsuf)) ->
+  chunks_ok (v_kind (sel_variant how lu ru)) cs (sel_a how lk rk) (sel_b how lk rk) ->
+  ordered_merge MFixed how lu ru (map f lk) (map f rk) lcols rcols lsuf rsuf (len lk) (len rk) cs mcs vf ccs
+  = Ok (ordered_dest how lu ru lk rk lcols rcols lsuf rsuf).
+Proof. exact MergeView.ordered_merge_key_embedding. Qed.
+Print Assumptions ordered_merge_key_embedding.
+
+(* its hypotheses on a non-trivial input (with all_hyps_nonvacuous_general for the remaining ones): integer keys seen
+   through the scaling by 2^60 used when the other column is a float *)
+Example key_embedding_nonvacuous :
+  let f := fun z => z * 2 ^ 60 in
+  mono_on f ([1;1;2;3] ++ [1;3;4]) /\
+  ordered_merge MFixed 2 false false (map f [1;1;2;3]) (map f [1;3;4])
+     [([107], CFix [0] [0] [[1];[1];[2];[3]])] [([107], CFix [0] [0] [[1];[3];[4]])] [95;108] [95;114] 4 3 3 2 2 2
+  = Ok [ (N_left_map, map_column [0;1;3]); (N_right_map, map_column [0;0;1]);
+         ([107;95;108], CFix [0] [0] [[1];[1];[3]]); ([107;95;114], CFix [0] [0] [[1];[1];[3]]) ].
+Proof. exact key_embedding_example. Qed.
+
+(* the view of the code under test is the identity on every key below 2^53, and when no pair is flagged *)
+Theorem key_view_exact_below_2_53 : forall kv z, Z.abs z < 2 ^ 53 -> key_view kv z = z.
+Proof. exact MergeView.key_view_exact_below_2_53. Qed.
+Print Assumptions key_view_exact_below_2_53.
+
+Theorem view_keys_exact :
+  forall kvs cols, Forall (fun c => Forall (fun z => Z.abs z < 2 ^ 53) c) cols -> view_keys kvs cols = cols.
+Proof. exact MergeView.view_keys_exact. Qed.
+Print Assumptions view_keys_exact.
+
+(* ---- conversions that are not injective on the keys present: REFUTED ------------------------------------ *)
+Theorem narrowing_key_cast_refuted :            (* the class of seeded change C02-r2-1; F-C02h (pandas 3.0, repaired) *)
+  (* int64 -> int32: the right key 2^32 + 2 is joined to the left key 2 *)
+  join_pairs 0 [[2]] (map (map (wrap_signed 32)) [[2 ^ 32 + 2]]) <> join_pairs 0 [[2]] [[2 ^ 32 + 2]] /\
+  (* int64 -> uint16: the right key 65536 is joined to the left key 0 *)
+  join_pairs 2 [[0]] (map (map (wrap_unsigned 16)) [[65536]]) <> join_pairs 2 [[0]] [[65536]] /\
+  (* float64 -> float32: 1 + 2^-30 is joined to 1 (keys scaled by 2^60) *)
+  join_pairs 3 [[2 ^ 60]] (map (map (round_sig 24)) [[2 ^ 60 + 2 ^ 30]]) <> join_pairs 3 [[2 ^ 60]] [[2 ^ 60 + 2 ^ 30]] /\
+  (* S5 -> S3: b"abcde" is joined to b"abc" *)
+  join_pairs 1 [[enc_abc * 2 ^ 40]] (map (map (trunc_bytes 8 3)) [[enc_abcde * 2 ^ 24]])
+  <> join_pairs 1 [[enc_abc * 2 ^ 40]] [[enc_abcde * 2 ^ 24]].
+Proof.
+  exact (conj wrap_int32_breaks_join (conj wrap_uint16_breaks_join (conj round_float32_breaks_join trunc_S3_breaks_join))).
+Qed.
+Print Assumptions narrowing_key_cast_refuted.
+
+Theorem binary64_key_comparison_refuted :       (* F-C02i, known finding: the repaired tree, hint-free merge *)
+  (* int64 left keys [2^53; 2^53 + 1], float64 right key [2^53]: pandas casts both columns to float64 (view flag 1) and
+     both left rows get the right row; the relational join leaves the second one unmatched *)
+  merge join_pairs (i_args true (2 ^ 53)) = Ok (false, [(nV, numcol [10;20]); (nW, numcol [30;30])]) /\
+  merge_spec 0 [[2 ^ 53; 2 ^ 53 + 1]] [[2 ^ 53]] [(nV, numcol [10;20])] [(nW, numcol [30])] sufL sufR
+  = [(nV, numcol [10;20]); (nW, numcol [30;0])] /\
+  (* one bit lower the view changes nothing; at 2^53 an exactly compared pair gives the relational join (+ valid_r) *)
+  merge join_pairs (i_args true (2 ^ 52)) = merge join_pairs (i_args false (2 ^ 52)) /\
+  merge join_pairs (i_args false (2 ^ 53))
+  = Ok (false, merge_spec 0 [[2 ^ 53; 2 ^ 53 + 1]] [[2 ^ 53]] [(nV, numcol [10;20])] [(nW, numcol [30])] sufL sufR
+               ++ [(N_valid ++ sufR, CFix [0] [0] [[1];[0]])]).
+Proof. exact binary64_comparison_breaks_merge. Qed.
+Print Assumptions binary64_key_comparison_refuted.
